@@ -2,6 +2,7 @@
 from __future__ import annotations
 
 import ast
+import re
 import builtins
 
 import sympy as sp
@@ -25,11 +26,16 @@ META = dict(
          "replication and any quantile of a constant is that constant); (R4, N) the assumed data per audit type are built as "
          "documented and every callee on these paths resolves (no unbound names); (R5, P) contest and audit estimates are max-folds "
          "from 0 over all (resp. all unproved) assertions; (R6, P) RAIRE's helper uses the same constants.",
-    note="NOT decided: 'interleaving returns exactly the requested number of each value' (an arithmetic invariant of a data-"
-         "dependent loop; a ZeroDivisionError for n_big = 0 was observed by hand) and np.quantile numerics. D6 (unbound "
-         "interleave_values) and D8 (np.repeat for tile) were repaired with fix: commits.",
+    note="'Interleaving returns exactly the requested number of each value' is claimed at level N: the loop is data dependent, but it "
+         "reads the three ratios only through comparisons, so the selection is decided over the 27 weak orderings and the rest is "
+         "bookkeeping by form (R7); the count statement itself is the short hand argument in r7's docstring / DESIGN 9.7. NOT "
+         "decided: np.quantile numerics. D6 (unbound interleave_values), D8 (np.repeat for tile) and D17 (ZeroDivisionError for a "
+         "requested count of 0) were repaired with fix: commits.",
     technique="resolved-callee rule, first-crossing idiom as a term identity, scope resolution (unbound-name) lint, fold recognisers",
 )
+META["text"] += (" (R7, N) interleave_values: a kind that was not requested starts at ratio 0, every placement updates its own kind's "
+                 "counter and ratio, the kind placed has a maximal ratio (all 27 orderings), one placement per position, position 0 and the "
+                 "empty request follow the same protocol -- from which exact counts follow by hand.")
 META["text"] += " R6 also requires the helper's placement order: one-vote values first, two-vote values overwrite them, as in the core."
 
 
@@ -43,6 +49,7 @@ def run(chk):
     r4(chk)
     r5(chk)
     r6(chk)
+    r7(chk)
 
 
 def branches(fn):
@@ -513,3 +520,155 @@ def r6(chk):
     defaults = dict(zip([a.arg for a in fn.args.args][-len(fn.args.defaults):], fn.args.defaults))
     chk.ob("C16.R6", where, "upper_bound-default-1", "upper_bound" in defaults and norm(defaults["upper_bound"]) == "1",
            "the helper's upper_bound defaults to 1, the bound of the IRV assorters it is used for", node=fn, strength="N")
+
+
+
+def r7(chk):
+    """Interleaving returns exactly the requested number of each value.  The loop is data dependent, but it touches the three
+    ratios r_K = (items of kind K still to place) / n_K only through comparisons, so the selection is decided over the 27 weak
+    orderings of three values; the rest is bookkeeping by form.  Hand argument from the facts below: every step places one item of
+    a kind whose ratio is maximal; a kind that was not requested (F1: ratio starts at 0) or is used up has ratio 0 and can be
+    maximal only when all ratios are 0, i.e. when all N = n_small + n_med + n_big items are placed -- which is not the case inside
+    `for i in range(1, N)`; so every step places an item of a kind that still has items left (in particular n_K > 0 where the code
+    divides by n_K), N steps place N items, none over its count: the counts are exact."""
+    import itertools
+    fn = chk.fn(REL, "Assertion.interleave_values")
+    where = W("Assertion.interleave_values")
+    params = [a.arg for a in fn.args.args]
+    if len(params) < 7:
+        raise AnalysisError("interleave_values: unexpected signature")
+    counts, values = params[1:4], params[4:7]
+    # ratio / index variables by role: r_K = (n_K - i_K) / n_K
+    ratio, index = {}, {}
+    for st in walk_local(fn):
+        if isinstance(st, ast.Assign) and isinstance(st.targets[0], ast.Name) and isinstance(st.value, ast.BinOp) and isinstance(st.value.op, ast.Div):
+            den = norm(st.value.right)
+            num = st.value.left
+            if den in counts and isinstance(num, ast.BinOp) and isinstance(num.op, ast.Sub) and norm(num.left) == den and isinstance(num.right, ast.Name):
+                ratio.setdefault(den, set()).add(st.targets[0].id)
+                index.setdefault(den, set()).add(num.right.id)
+    ok_roles = all(len(ratio.get(c, ())) == 1 and len(index.get(c, ())) == 1 for c in counts)
+    if not ok_roles:
+        chk.ob("C16.R7", where, "ratio-bookkeeping", False, "each kind has one ratio variable r_K = (n_K - i_K)/n_K", node=fn,
+               found={c: [sorted(ratio.get(c, ())), sorted(index.get(c, ()))] for c in counts})
+        return
+    R = {c: next(iter(ratio[c])) for c in counts}
+    IX = {c: next(iter(index[c])) for c in counts}
+    kind_of_value = dict(zip(values, counts))
+    # F1: a kind that was not requested starts with ratio 0
+    inits = {}
+    for st in fn.body:
+        if isinstance(st, ast.Assign) and isinstance(st.targets[0], ast.Name):
+            inits.setdefault(st.targets[0].id, st.value)
+    for c in counts:
+        v = inits.get(R[c])
+        ok = False
+        if v is not None:
+            got = Tx().expr(v)
+            want = Tx().expr(ast.parse(f"1 if {c} else 0", mode="eval").body)
+            ok = symx.equivalent(got, want)[0]
+        chk.ob("C16.R7", where, f"unrequested-kind-starts-at-ratio-0[{c}]", ok,
+               f"the ratio of kind `{c}` starts at 1 if any item of it was requested and at 0 otherwise, so a kind with count 0 is "
+               "never selected (and its count never divided by)", node=fn, init=norm(v) if v is not None else None)
+    # F2: each placement of a value of kind K is followed, in the same block, by the update of i_K and r_K
+    places = [(t, v, s0) for t, v, s0 in stores(fn) if isinstance(t, ast.Subscript) and isinstance(v, ast.Name) and v.id in values]
+    bad = []
+    for t, v, s0 in places:
+        c = kind_of_value[v.id]
+        blk = parent(s0)
+        lst = blk.body if s0 in blk.body else blk.orelse
+        rest = lst[lst.index(s0) + 1:]
+        upd_i = [x for x in rest if (isinstance(x, ast.AugAssign) and norm(x.target) == IX[c] and isinstance(x.op, ast.Add) and norm(x.value) == "1")
+                 or (isinstance(x, ast.Assign) and norm(x.targets[0]) == IX[c] and norm(x.value) in ("1", f"{IX[c]}+1"))]
+        upd_r = [x for x in rest if isinstance(x, ast.Assign) and norm(x.targets[0]) == R[c] and norm(x.value) == f"({c}-{IX[c]})/{c}"]
+        others = [x for x in rest if isinstance(x, (ast.Assign, ast.AugAssign)) and
+                  norm(x.targets[0] if isinstance(x, ast.Assign) else x.target) in (set(R.values()) | set(IX.values())) - {R[c], IX[c]}]
+        if len(upd_i) != 1 or len(upd_r) != 1 or others or lst.index(upd_i[0]) > lst.index(upd_r[0]):
+            bad.append(norm(s0))
+    chk.ob("C16.R7", where, "placement-updates-its-own-kind", len(places) >= 6 and not bad,
+           "every store of a value of kind K is followed by i_K += 1 and r_K = (n_K - i_K)/n_K, and touches no other kind's counters",
+           node=fn, placements=len(places), problems=bad)
+    # F3: the selection inside the loop picks a kind of maximal ratio -- over all weak orderings of the three ratios
+    loops = [l for l in fn.body if isinstance(l, ast.For)]
+    ok_sel = ok_loop = False
+    detail = {}
+    if len(loops) == 1:
+        l = loops[0]
+        Nn = next((k for k, v in inits.items() if sorted(x.id for x in ast.walk(v) if isinstance(x, ast.Name)) == sorted(counts)
+                   and all(isinstance(o, (ast.BinOp, ast.Name, ast.Add, ast.Load)) for o in ast.walk(v))), None)
+        ok_loop = Nn is not None and norm(l.iter) == f"range(1,{Nn})" and not [x for x in walk_local(l) if isinstance(x, (ast.Break, ast.Continue, ast.Return))]
+        xs = {norm(t.value) for t, v, s0 in places}
+        ok_loop = ok_loop and len(xs) == 1 and norm(inits.get(next(iter(xs)), ast.Constant(value=0))) in (f"np.zeros({Nn})", f"np.empty({Nn})")
+        tx = Tx()
+        tx.skip_calls = True
+        slot = f"@{next(iter(xs))}[{norm(l.target)}]" if xs else None
+        try:
+            tx.env[slot] = E(S("UNSET"))
+            tx.block(list(l.body))
+            term = tx.env.get(slot)
+        except symx.Unsupported as e:
+            term = None
+            detail["untranslated"] = str(e)
+        if term is not None:
+            wrong = []
+            names = [R[c] for c in counts]
+            for ranks in itertools.product(range(3), repeat=3):
+                rk = dict(zip(names, ranks))
+                row = {}
+                for a in symx.val_atoms(term):
+                    m = re.match(r"^(lt|eq)\(([^,]+),([^,]+)\)$", a)
+                    if not m or m.group(2) not in rk or m.group(3) not in rk:
+                        row = None
+                        break
+                    x_, y_ = rk[m.group(2)], rk[m.group(3)]
+                    row[a] = (x_ < y_) if m.group(1) == "lt" else (x_ == y_)
+                if row is None:
+                    wrong.append("the selection reads something other than comparisons of the three ratios")
+                    break
+                leaf = symx.eval_val(term, row)
+                chosen = sp.sstr(leaf) if not isinstance(leaf, str) else leaf
+                if chosen not in kind_of_value:
+                    wrong.append(f"ordering {rk}: stores {chosen}")
+                    continue
+                if rk[R[kind_of_value[chosen]]] != max(ranks):
+                    wrong.append(f"ordering {rk}: places `{chosen}` although another ratio is larger")
+            ok_sel = not wrong
+            detail["orderings_checked"] = 27
+            detail["problems"] = wrong[:4]
+            chk.exhaustive = True
+    chk.ob("C16.R7", where, "selection-takes-a-maximal-ratio", ok_sel,
+           "at every position the value placed is of a kind whose ratio (fraction still to place) is the largest of the three -- decided "
+           "over all 27 weak orderings of the ratios, which the loop body reads only through comparisons", node=loops[0] if loops else fn, **detail)
+    chk.ob("C16.R7", where, "one-placement-per-position", ok_loop,
+           "the array has n_small + n_med + n_big positions and the loop fills positions 1..N-1, one value each, without leaving early",
+           node=loops[0] if loops else fn)
+    # F4: position 0 follows the same protocol (first requested kind in the order small, med, big), and an empty request returns at once
+    first = [s0 for s0 in fn.body if isinstance(s0, ast.If) and any(isinstance(t, ast.Subscript) and norm(t.slice) == "0" for t, v, x in stores(s0))]
+    ok_first = False
+    if len(first) == 1 and loops:
+        tx = Tx()
+        for k_, v_ in inits.items():
+            if k_ in R.values():
+                tx.env[k_] = tx.expr(v_)
+        xs_name = next(iter(xs)) if xs else "x"
+        tx.env[f"@{xs_name}[0]"] = E(S("UNSET"))
+        try:
+            tx.block([first[0]])
+            got = symx.prune(tx.env[f"@{xs_name}[0]"])
+            want = symx.prune(Tx().expr(ast.parse(f"{values[0]} if {counts[0]} else ({values[1]} if {counts[1]} else {values[2]})", mode="eval").body))
+            ok_first = symx.equivalent(got, want)[0]
+        except symx.Unsupported:
+            ok_first = False
+        guards = [g for g in fn.body if isinstance(g, ast.If) and fn.body.index(g) < fn.body.index(first[0])
+                  and any(isinstance(r_, ast.Return) for r_ in g.body)]
+        empty_ok = False
+        for g in guards:
+            c_ = Tx(env={Nn: Tx().expr(inits[Nn])} if Nn else {}).cond(g.test)
+            w_ = Tx().cond(ast.parse(f"{'+'.join(counts)} == 0", mode="eval").body)
+            w2 = Tx().cond(ast.parse(f"not ({'+'.join(counts)})", mode="eval").body)
+            if c_ not in (True, False) and (aud.cond_equiv(c_, w_)[0] or aud.cond_equiv(c_, w2)[0]):
+                empty_ok = True
+        ok_first = ok_first and empty_ok
+    chk.ob("C16.R7", where, "first-position-and-empty-request", ok_first,
+           "position 0 takes the first requested kind (small, then med, then big) and a request for nothing returns the empty array before "
+           "position 0 is written", node=first[0] if first else fn)
